@@ -554,6 +554,47 @@ func (th *Thread) mapGet(m *Map, k Value) (Value, bool) {
 	return m.vals[i], true
 }
 
+// mapGetSym answers a lookup with a symbolic key without forking when every
+// live value is a scalar term (or a zero-size struct): the result is an
+// if-then-else chain over key equalities.
+func (th *Thread) mapGetSym(m *Map, k Value, vt types.Type, commaOk bool) (Value, bool) {
+	if m == nil || m.n == 0 {
+		return nil, false
+	}
+	if _, conc := concreteKey(k); conc {
+		return nil, false
+	}
+	z := zero(vt)
+	zt, scalar := z.(*Term)
+	zs, isStruct := z.(Struct)
+	if !scalar && !(isStruct && len(zs) == 0) {
+		return nil, false
+	}
+	found := FalseT
+	res := zt
+	for i := len(m.keys) - 1; i >= 0; i-- {
+		if !m.live[i] {
+			continue
+		}
+		eq := eqTerm(m.keys[i], k)
+		if eq.IsFalse() {
+			continue
+		}
+		found = Or(eq, found)
+		if scalar {
+			res = Ite(eq, m.vals[i].(*Term), res)
+		}
+	}
+	var v Value = z
+	if scalar {
+		v = res
+	}
+	if commaOk {
+		return Tuple{v, found}, true
+	}
+	return v, true
+}
+
 func (th *Thread) mapUndo(m *Map) {
 	w := th.p.w
 	if w.inInit > 0 || m.epoch == w.epoch {
@@ -798,9 +839,51 @@ func (th *Thread) callBuiltin(fr *frame, b *ssa.Builtin, c *ssa.CallCommon, args
 			th.goPanicRT(fmt.Sprintf("value method %s called using nil pointer", describe(args[2])))
 		}
 		return args[0]
+	case "SliceData":
+		s := args[0].([]Value)
+		if s == nil {
+			return (*Value)(nil)
+		}
+		return &SlicePtr{s: s[:cap(s)]}
+	case "StringData":
+		return &StrPtr{s: args[0].(Str)}
 	case "String": // unsafe.String(ptr, len)
-		panic(unsupported{"unsafe.String"})
-	case "StringData", "SliceData", "Slice", "Add", "Offsetof", "Sizeof", "Alignof":
+		n := th.concInt(args[1])
+		switch p := args[0].(type) {
+		case *SlicePtr:
+			if int(n) > len(p.s) {
+				th.goPanicRT("unsafe.String: len out of range")
+			}
+			return mkStr(bytesOf(p.s[:n]))
+		case *StrPtr:
+			return p.s.Slice(0, int(n))
+		case *Value:
+			if n == 0 {
+				return Str{}
+			}
+			if n == 1 && p != nil {
+				return mkStr([]*Term{(*p).(*Term)})
+			}
+		}
+		panic(unsupported{fmt.Sprintf("unsafe.String on %T", args[0])})
+	case "Slice": // unsafe.Slice(ptr, len)
+		n := th.concInt(args[1])
+		switch p := args[0].(type) {
+		case *SlicePtr:
+			return p.s[:n]
+		case *StrPtr:
+			out := make([]Value, n)
+			for i := range out {
+				out[i] = p.s.At(i)
+			}
+			return out
+		case *Value:
+			if n == 0 || p == nil {
+				return []Value(nil)
+			}
+		}
+		panic(unsupported{fmt.Sprintf("unsafe.Slice on %T", args[0])})
+	case "Add", "Offsetof", "Sizeof", "Alignof":
 		panic(unsupported{"unsafe." + b.Name()})
 	}
 	panic(unsupported{fmt.Sprintf("builtin %s on %T", b.Name(), args)})
